@@ -2,11 +2,14 @@ package engine
 
 import (
 	"bufio"
+	"bytes"
 	"fmt"
 	"go/types"
+	"io"
 	"os"
 	"path/filepath"
 	"regexp"
+	"sort"
 	"strconv"
 	"strings"
 )
@@ -36,6 +39,7 @@ type Contract struct {
 	Assumes    []*Clause
 	Trace      map[string]bool
 	Lemmas     []*Clause
+	EnsuresAssumed []*Clause // used at call sites, NOT checked against the body (listed as trusted clauses)
 }
 
 type LockDelta struct {
@@ -94,15 +98,35 @@ func (w *World) LoadContracts() error {
 			return err
 		}
 	}
+	// contract files that exist only in the load overlay (contracts for code
+	// generated at check time)
+	var ov []string
+	for p := range LoadOverlay {
+		if filepath.Base(p) == "verif_contracts.go" {
+			ov = append(ov, p)
+		}
+	}
+	sort.Strings(ov)
+	for _, f := range ov {
+		if err := w.loadContractFile(f); err != nil {
+			return err
+		}
+	}
 	return nil
 }
 
 func (w *World) loadContractFile(path string) error {
-	fh, err := os.Open(path)
-	if err != nil {
-		return err
+	var fh io.Reader
+	if b, ok := LoadOverlay[path]; ok {
+		fh = bytes.NewReader(b)
+	} else {
+		f, err := os.Open(path)
+		if err != nil {
+			return err
+		}
+		defer f.Close()
+		fh = f
 	}
-	defer fh.Close()
 	rel, _ := filepath.Rel(w.Repo, filepath.Dir(path))
 	pkgPath := ModPath
 	if rel != "." {
@@ -217,7 +241,7 @@ func (w *World) loadContractFile(path string) error {
 				return fmt.Errorf("%s:%d: expected 'at call F requires'", path, ln)
 			}
 			pend = &pending{kind: "atcall", arg: nm, text: r3, line: ln}
-		case "requires", "ensures", "ensures_ok", "ensures_err", "modifies", "assume", "pred", "ghost", "axiom", "lemma", "lock_delta", "trace":
+		case "requires", "ensures", "ensures_ok", "ensures_err", "ensures_assumed", "modifies", "assume", "pred", "ghost", "axiom", "lemma", "lock_delta", "trace":
 			pend = &pending{kind: kw, text: rest, line: ln}
 		default:
 			return fmt.Errorf("%s:%d: unknown contract keyword %q", path, ln, kw)
@@ -369,6 +393,8 @@ func (w *World) addClause(cur *Contract, pkgPath, path, kind, arg, text string, 
 		cur.EnsuresOK = append(cur.EnsuresOK, cl)
 	case "ensures_err":
 		cur.EnsuresErr = append(cur.EnsuresErr, cl)
+	case "ensures_assumed":
+		cur.EnsuresAssumed = append(cur.EnsuresAssumed, cl)
 	case "assume":
 		cur.Assumes = append(cur.Assumes, cl)
 	case "lemma":
